@@ -58,6 +58,12 @@ def build(rng, gen):
         if "id" not in src.attributes:
             k += 1
             src.add_attribute("id", f"src-{k}")
+        for x in treegen.all_nodes(src)[1:]:
+            # descendants of the source carrying ids of their own (where their rule declares the attribute)
+            rn_ = mrule.node_mappings.get(x.name)
+            if rn_ and "id" in emlkit.rules_table()[rn_][0] and "id" not in x.attributes and rng.random() < 0.5:
+                k += 1
+                x.add_attribute("id", f"src-inner-{k}")
         parent = src.parent
         same_name = rng.random() < 0.5
         name = src.name if same_name else rng.choice(list(emlkit.elements_of(rname)))
